@@ -23,7 +23,7 @@ ASSUMPTIONS = [
     "records are circular and over ACGT plus the unknown base N (records with other ambiguity letters are counted as skipped)",
     "which of several valid cut pairs a class picks is not constrained",
 ]
-FLOORS = {"c04_nested_pairs": 40, "c04_entities_judged": 1500, "c04_placeholders_judged": 150, "c04_flanked_targets": 500, "classes_judged": 60}
+FLOORS = {"c04_nested_pairs": 40, "c04_entities_judged": 1500, "c04_placeholders_judged": 150, "c04_flanked_targets": 500, "classes_judged": 60, "c04_records_edited_in_place": 300}
 MUST_REACH = ["AbstractModule.target_sequence", "AbstractVector.target_sequence", "AbstractVector.placeholder_sequence"]
 NEEDS_REGISTRIES = True
 BUDGET_S = {"quick": 900, "thorough": 7200}
@@ -98,6 +98,34 @@ def _probe(ctx, cls, text, mode):
         ent.placeholder_sequence()
     if ctx.counters["c04_entities_judged"] > before:
         ctx.nontrivial([cls.__name__, text])
+    if (len(text) + ord(text[len(text) // 2])) % 5 == 0:
+        # the plasmid as an editable record (MutableSeq), looked at, edited in place - a recognition site destroyed, or one letter
+        # changed somewhere - and looked at again through a new entity on the same record object with nothing else in between:
+        # what the class reports is judged against the text the record holds at that moment
+        from Bio.Seq import MutableSeq
+        from ..util import occurrences
+        rec = CircularRecord(MutableSeq(text), "editable")
+        site = cls.cutter.site
+        try:
+            e1 = cls(rec)
+            if e1.is_valid():
+                e1.overhang_start(), e1.overhang_end(), e1.target_sequence()
+            hits = occurrences(text, site) + occurrences(text, rc(site))
+            h = len(text) + ord(text[0])
+            if hits and h % 3:
+                i = (hits[h % len(hits)] + h % len(site)) % len(text)
+            else:
+                i = h % len(text)
+            rec.seq[i] = "ACGT"[("ACGT".index(text[i].upper()) + 1 + h % 3) % 4] if text[i].upper() in "ACGT" else "A"
+            ctx.count("c04_records_edited_in_place")
+            e2 = cls(rec)
+            if e2.is_valid():
+                ctx.count("c04_edited_records_still_accepted")
+                e2.overhang_start(), e2.overhang_end(), e2.target_sequence()
+                if hasattr(e2, "placeholder_sequence"):
+                    e2.placeholder_sequence()
+        except errors.InvalidSequence:
+            pass
     if (len(text) + ord(text[-1])) % 4 == 0:
         # the same plasmid handed over as a plain SeqRecord that declares itself circular (what Bio.SeqIO returns): whatever
         # the class reports for it is judged like any other report; refusing to cut a target out of a record that cannot be
